@@ -223,15 +223,26 @@ func (t *Type) infer() *Type {
 	return &t2
 }
 
+// mergeFixed returns t with the Fixed flags of the equal type t2 added
+// at every level.
+func mergeFixed(t, t2 *Type) *Type {
+	if t == nil || t2 == nil || t == t2 {
+		return t
+	}
+	sub := mergeFixed(t.Sub, t2.Sub)
+	if sub == t.Sub && (t.Fixed || !t2.Fixed) {
+		return t
+	}
+	return &Type{Name: t.Name, Sub: sub, Fixed: t.Fixed || t2.Fixed}
+}
+
 func combineTypes(types []*Type) *Type {
 	combinedT := types[0]
 	for _, t := range types[1:] {
 		if combinedT.Equals(t) {
-			if t.Fixed {
-				// a non-literal element cannot be converted later on,
-				// so it fixes the combined type as well.
-				combinedT = t
-			}
+			// a non-literal element cannot be converted later on,
+			// so it fixes the combined type as well, at its level.
+			combinedT = mergeFixed(combinedT, t)
 			continue
 		}
 		// types are not equal, ensure that composite types can be combined
